@@ -62,6 +62,11 @@ package contracts
 //@ extern syscall.SetNonblock
 //@   params fd nonblocking
 //@   results err
+//@   note fcntl(F_SETFL, O_NONBLOCK): recorded in the ghost map nonblock
+//@   ensures err == nil ==> nonblock[fd] == nonblocking
+//@   ensures err != nil ==> nonblock[fd] == old(nonblock[fd])
+//@   ensures forall x int :: x != fd ==> nonblock[x] == old(nonblock[x])
+//@   modifies nonblock
 //@
 //@ extern os.NewSyscallError
 //@   params syscall err
